@@ -26,15 +26,33 @@ theorem bracket_restores (fwd : Option Nat) (prev : Bool) :
     let d1 := (apply d0 (.setAutoconf false)).1
     let d2 := (apply d1 (.setAutoconf prev)).1
     r = some prev ∧ (apply d1 .getAutoconf).2 = some false ∧ d2 = d0 := by
-  cases prev <;> simp [apply, readBool, writeCode]
+  cases prev <;> simp [apply, readBool, writeCode, isInt, nonZero]
 
-/-- Only the kernel's "1\n" reads as true; an unreadable file is an error, never "false". -/
-theorem read_true_iff (c : Option Nat) : readBool c = some true ↔ c = some 1 := by
+/-- Every non-zero integer reads as true (C04: an interface whose `forwarding` is 2 forwards);
+    an unreadable file or a content that is no integer is an error, never "false". -/
+theorem read_true_iff (c : Option Nat) : readBool c = some true ↔ c = some 1 ∨ c = some 3 := by
   cases c with
   | none => simp [readBool]
-  | some n => simp [readBool]
+  | some n =>
+    unfold readBool isInt nonZero
+    by_cases h2 : n = 2
+    · subst h2; decide
+    · by_cases h1 : n = 1 <;> by_cases h3 : n = 3 <;> simp [h1, h2, h3]
 
-theorem read_error_iff (c : Option Nat) : readBool c = none ↔ c = none := by
-  cases c <;> simp [readBool]
+theorem read_false_iff (c : Option Nat) : readBool c = some false ↔ ∃ n, c = some n ∧ n ≠ 1 ∧ n ≠ 2 ∧ n ≠ 3 := by
+  cases c with
+  | none => simp [readBool]
+  | some n =>
+    unfold readBool isInt nonZero
+    by_cases h2 : n = 2
+    · subst h2; simp
+    · by_cases h1 : n = 1 <;> by_cases h3 : n = 3 <;> simp [h1, h2, h3]
+
+theorem read_error_iff (c : Option Nat) : readBool c = none ↔ c = none ∨ c = some 2 := by
+  cases c with
+  | none => simp [readBool]
+  | some n =>
+    unfold readBool isInt
+    by_cases h2 : n = 2 <;> simp [h2]
 
 end Corerad.Props.C11Sysctl
